@@ -7,7 +7,8 @@ pub struct LeafSpec {
     pub script: Vec<Step>,
     pub always: bool,
     /// streams: report an honest, exact `size_hint` (the default is `(0, None)`)
-    pub hint: bool,
+    /// 0 = none, 1 = exact, 2 = honest but inexact: (about half, Some(a few more))
+    pub hint: u8,
     /// the child invokes the waker of its most recent poll from its destructor
     pub dropwake: bool,
 }
@@ -68,6 +69,10 @@ pub struct Case {
     /// all pending children are handed to helper THREADS that invoke them
     /// while the task is already being polled again (truly concurrent wake-ups)
     pub storm: bool,
+    /// if a child's poll panics, the combinator is dropped *by that unwinding*
+    /// (it lives in the frame being unwound, as in `comb.await` inside an async
+    /// block) instead of after the panic was caught
+    pub unwind_drop: bool,
 }
 
 impl CombSpec {
@@ -121,7 +126,25 @@ impl CombSpec {
                             Step::Panic => "PANIC".into(),
                         })
                         .collect();
-                    format!("<{}{}{}>", s.join(" "), if l.always { " always" } else { "" }, if l.hint { " exact-size_hint" } else { "" }) + if l.dropwake { "+wake-on-drop" } else { "" }
+                    // run-length encode long scripts
+                    let mut rle: Vec<String> = Vec::new();
+                    let mut i = 0;
+                    while i < s.len() {
+                        let mut j = i;
+                        while j < s.len() && s[j] == s[i] {
+                            j += 1;
+                        }
+                        if j - i > 3 {
+                            rle.push(format!("{}x{}", s[i], j - i));
+                        } else {
+                            for k in i..j {
+                                rle.push(s[k].clone());
+                            }
+                        }
+                        i = j;
+                    }
+                    let s = rle;
+                    format!("<{}{}{}>", s.join(" "), if l.always { " always" } else { "" }, match l.hint { 1 => " exact-size_hint", 2 => " inexact-size_hint", _ => "" }) + if l.dropwake { "+wake-on-drop" } else { "" }
                 }
                 ChildSpec::Inner(i) => i.show(),
             })
@@ -133,6 +156,8 @@ impl CombSpec {
             match self.variant {
                 1 => "[children without drop glue]",
                 2 => "[values without drop glue]",
+                3 => "[errors without drop glue]",
+                4 => "[heterogeneous element types: tracked, niche without destructor, plain, wide with destructor]",
                 _ => "",
             },
             kids.join(", ")
@@ -164,6 +189,6 @@ impl Case {
             acts.join(" "),
             if self.no_drain { " (no drain)" } else { " then fair drain" },
             if self.fair_polls > 0 { format!(" fair_polls={}", self.fair_polls) } else { String::new() }
-        ) + if self.storm { " [storm: wakers fired concurrently from helper threads]" } else { "" } + &(if self.post_polls > 0 { format!(" then {} poll(s) after the final result", self.post_polls) } else { String::new() })
+        ) + if self.storm { " [storm: wakers fired concurrently from helper threads]" } else { "" } + if self.unwind_drop { " [a panic unwinds through the owner of the combinator]" } else { "" } + &(if self.post_polls > 0 { format!(" then {} poll(s) after the final result", self.post_polls) } else { String::new() })
     }
 }
